@@ -61,6 +61,7 @@ func explorerFor(sc *Scenario, bound int) *vs.Explorer {
 		Cfg:   vs.Config{FreeTimers: sc.FreeTimers, MaxFires: sc.MaxFires, NumCPU: sc.NumCPU, MaxSteps: 5000},
 		Bound: bound,
 		Prune: true,
+		MaxStates: 12000000,
 		New: func() *vs.Exec {
 			w := newWorld(sc)
 			return &vs.Exec{Main: w.Main, Check: w.Check, Invariant: w.Invariant}
@@ -122,13 +123,28 @@ func runWorker(sc *Scenario, bound int, budget time.Duration, noprune bool) *Wor
 			break
 		}
 		res.PackDone = i + 1
-		if len(res.Violations) > 40 {
+		if countProp(res.Violations) > 40 || len(res.Violations) > 2000 {
 			break
 		}
 	}
 	res.PackSize = len(sc.Pack)
 	res.WallS = time.Since(start).Seconds()
 	return res
+}
+
+// workerProp is the property the parent is checking: only its violations
+// count towards the early-stop cap (violations of other properties seen on the
+// way are notes).
+var workerProp string
+
+func countProp(vs []WViolation) int {
+	n := 0
+	for _, v := range vs {
+		if workerProp == "" || v.Property == workerProp {
+			n++
+		}
+	}
+	return n
 }
 
 func runOne(sc *Scenario, bound int, start time.Time, budget time.Duration, noprune bool) *WorkerResult {
@@ -185,7 +201,7 @@ func runOne(sc *Scenario, bound int, start time.Time, budget time.Duration, nopr
 		if ex.Stats.BudgetHit {
 			break
 		}
-		if len(res.Violations) > 40 {
+		if countProp(res.Violations) > 40 || len(res.Violations) > 400 {
 			break
 		}
 	}
@@ -212,8 +228,8 @@ type propSpec struct {
 
 // which scenarios serve which property (DESIGN.md appendix B)
 var propScenarios = map[string]*regexp.Regexp{
-	"C05": regexp.MustCompile(`^(D1|D2|D3|D4|D5|D6|SPLIT|SEQ)`),
-	"C06": regexp.MustCompile(`^(D1|D2|D3|D6|D7|SEQ)`),
+	"C05": regexp.MustCompile(`^(D1|D2|D3|D4|D5|D6|SPLIT|SEQ|MS)`),
+	"C06": regexp.MustCompile(`^(D1|D2|D3|D6|D7|SEQ|MS)`),
 	"C09": regexp.MustCompile(`^(D2|D4|D6|T9|SPLIT|SEQ)`),
 	"C10": regexp.MustCompile(`^(D8)`),
 	"C11": regexp.MustCompile(`^(D1|D3|D5|D7|D8|K2)`),
@@ -289,6 +305,7 @@ func main() {
 			fmt.Fprintf(os.Stderr, "HARNESS-ERROR: unknown scenario %q\n", *scName)
 			os.Exit(2)
 		}
+		workerProp = *prop
 		r := runWorker(sc, *bound, *budget, *noprune)
 		b, _ := json.Marshal(r)
 		fmt.Println("RESULT " + string(b))
@@ -466,7 +483,7 @@ func parent(prop, tier, filter string, boundOverride int, budget time.Duration, 
 			if boundOverride >= 0 {
 				b = boundOverride
 			}
-			cmd := exec.Command(self, "-worker", "-tier", tier, "-scenario", sc.Name, "-bound", fmt.Sprint(b), "-budget", budget.String())
+			cmd := exec.Command(self, "-worker", "-prop", prop, "-tier", tier, "-scenario", sc.Name, "-bound", fmt.Sprint(b), "-budget", budget.String())
 			cmd.Env = append(os.Environ(), "GOMAXPROCS=1", "GOGC=400")
 			cmd.Stderr = os.Stderr
 			outp, err := cmd.Output()
